@@ -3,7 +3,7 @@
 a=$1; r=$2
 d=/tmp/rprobe-$$-$a-$r; rm -rf $d; mkdir -p $d
 git -C /repo archive HEAD 20 30 31 40 go.mod go.sum | tar -x -C $d
-(cd $d && patch -p1 -s < /tmp/refac/$a/$r/patch.diff) || { echo "$a/$r: patch failed"; rm -rf $d; exit 2; }
+(cd $d && patch -p1 -s < ${REFROOT:-/tmp/refac}/$a/$r/patch.diff) || { echo "$a/$r: patch failed"; rm -rf $d; exit 2; }
 (cd $d && GOWORK=off GOFLAGS=-mod=mod GOPROXY=off go build ./20 ./30 ./31 ./40) || { echo "$a/$r: build failed"; rm -rf $d; exit 2; }
 out=""
 for i in $(seq -w 1 18); do
